@@ -324,6 +324,7 @@ def vec_pipeline(prop, mode_trace, cfg, tier, pattern_fn, chunk=100000, hmode_ta
     groups = {}
     drift_counts = {}
     by_kind = {}
+    cells = {}
     built = panics = judged = 0
     nviol_nodes = 0
     samples = []
@@ -337,6 +338,8 @@ def vec_pipeline(prop, mode_trace, cfg, tier, pattern_fn, chunk=100000, hmode_ta
             a = by_kind.setdefault(k, [0, 0])
             a[0] += v[0]
             a[1] += v[1]
+        for k, v in hs.get("cells", {}).items():
+            cells[k] = cells.get(k, 0) + v
         viols, drifts, tres = judge(mode_trace, trie, wd, tier)
         twall += tres["wall"]
         judged += tres["distinct"] - 2
@@ -369,7 +372,7 @@ def vec_pipeline(prop, mode_trace, cfg, tier, pattern_fn, chunk=100000, hmode_ta
             os.remove(trie)
     return {"wd": wd, "items": nitems, "mc": mc, "groups": groups, "drift": drift_counts, "by_kind": by_kind, "built": built,
             "panics": panics, "judged": judged, "violating_records": nviol_nodes, "samples": samples, "judge_wall": twall,
-            "sso_variants": variants}
+            "sso_variants": variants, "cells": cells}
 
 
 def expected_groups():
@@ -392,6 +395,21 @@ def require_all_kinds(by_kind, what="built"):
     unbuilt = [g for g in expected_groups() if by_kind.get(g, [0, 0])[1] == 0]
     if unbuilt:
         raise vlib.ToolError("vacuous run: no packet of these kinds was %s: %s" % (what, unbuilt[:6]))
+
+
+ALLOWED_AT = {
+    "connect": [17, 21, 22, 23, 25, 33, 34, 38, 39], "will": [1, 2, 3, 8, 9, 24, 38],
+    "connack": [17, 18, 19, 21, 22, 26, 28, 31, 33, 34, 36, 37, 38, 39, 40, 41, 42], "publish": [1, 2, 3, 8, 9, 11, 35, 38],
+    "puback": [31, 38], "pubrec": [31, 38], "pubrel": [31, 38], "pubcomp": [31, 38], "subscribe": [11, 38], "suback": [31, 38],
+    "unsubscribe": [38], "unsuback": [31, 38], "disconnect": [17, 28, 31, 38], "auth": [21, 22, 31, 38]}
+
+
+def require_all_cells(cells):
+    """Non-vacuity: every property kind at every location where it may appear was carried by at
+    least one packet the real builder accepted (64 cells)."""
+    missing = ["%s:%d" % (l, i) for l, ids in ALLOWED_AT.items() for i in ids if not cells.get("%s:%d" % (l, i))]
+    if missing:
+        raise vlib.ToolError("vacuous run: (location, property) cells never carried by a built packet: %s" % missing[:8])
 
 
 def finish(prop, tier, level, res, coverage, assumptions, t0):
